@@ -20,10 +20,10 @@ import (
 // be parsed back into whole ops.
 
 type C13Writer struct {
-	Side     int    `json:"side"` // 0 client, 1 server
-	Stream   int    `json:"stream"`
-	Ops      []int  `json:"ops"`                 // lengths (>= opHdr)
-	ReadFrom bool   `json:"read_from,omitempty"` // ops go through a local datagram link + common.Copy -> Stream.ReadFrom
+	Side     int   `json:"side"` // 0 client, 1 server
+	Stream   int   `json:"stream"`
+	Ops      []int `json:"ops"`                 // lengths (>= opHdr)
+	ReadFrom bool  `json:"read_from,omitempty"` // ops go through a local datagram link + common.Copy -> Stream.ReadFrom
 }
 
 type C13Scenario struct {
@@ -50,12 +50,12 @@ func opBytes(key uint64, writer, op, n int) []byte {
 }
 
 type opRec struct {
-	writer, op, n  int
-	startStep      int
-	doneStep       int // step at which the call returned (0: still running)
-	err            error
+	writer, op, n     int
+	startStep         int
+	doneStep          int // step at which the call returned (0: still running)
+	err               error
 	firstSeq, lastSeq uint64
-	seen           bool
+	seen              bool
 }
 
 func genC13(g *Gen) any {
